@@ -31,6 +31,18 @@ CLAIMED = {
         design_ref='DESIGN.md 4 C02',
         note=TRUST + 'Bounds: p per direction as listed; buffers/accessors for extents <= 4..8. Transpose sufficiency of the buffer '
                      'is the absence of numpy errors in the C01/C03 runs.'),
+    'C03': dict(
+        category='proof',
+        technique='concolic symbolic execution of the real LayoutSwapper on bit-vector extents over the symbolic-shape numpy/MPI model; assume/guarantee per step; z3 element-wise queries',
+        text='Bounded solver proof over symbolic extents for the driver\'s three-group swapper (and, thorough, its 4-D analogue and a '
+             'two-group family): every ordered pair of layouts, with and without buffer, on every rank: each single step (handler '
+             'transpose, gather by Allgather of padded blocks + unpack, scatter by local slice, local transpose) leaves the destination '
+             'equal to the global field at the rank\'s own global indices (so replicas are identical), the source intact when a buffer '
+             'is given, and the current-manager bookkeeping right; the post-condition of a step is the pre-condition of the next, which '
+             'covers chains and round trips of any length.',
+        design_ref='DESIGN.md 4 C03',
+        note=TRUST + 'Also trusted: lib/symnp.SymArr, lib/simmpi. Bounds: extents <= 3 (thorough 4), grids up to (2,2) (thorough (3,3)); '
+                     'MPI.DOUBLE byte width not modelled.'),
     'C04': dict(
         category='proof',
         technique='inductive step by concolic symbolic execution of the real Grid methods from an arbitrary invariant-satisfying state; z3 bit-vector queries on symbolic-shape buffers',
@@ -42,6 +54,19 @@ CLAIMED = {
              'of any length are covered. Violations are replayed through a concrete history on the real Grid + LayoutHandler.',
         design_ref='DESIGN.md 4 C04',
         note=TRUST + 'Assumes the transpose contract (C01/C03) and the stated representation invariant; extents <= 4; payload abstract.'),
+    'C06': dict(
+        category='proof',
+        technique='symbolic set-iteration order (priorities as z3 Ints) through the real route search; symbolic-extent execution of all ranks under a mismatch/deadlock-detecting MPI simulator; symbolic selections through the gather/reduce branches',
+        text='(a) For every connected layout graph on <= 4 (thorough 5) named nodes and the driver\'s graphs, every class of set '
+             'iteration orders (a superset of all hash seeds) yields the same route map and every route is a valid shortest path. '
+             '(b) The real swapper constructor and transposition sequences run on symbolic extents on all ranks; the simulator raises '
+             'on any mismatching kind/root/datatype, on counts that can differ for some extent (z3), and on deadlock; per-communicator '
+             'traces agree. (c) Every branch of getBlockForFig/getMin/getMax (symbolic selection, plot-only rank with an empty block) '
+             'and setupSave issues the same collective sequence on all ranks. Deterministic ranks + matching in call order make the '
+             'result independent of arrival order.',
+        design_ref='DESIGN.md 4 C06',
+        note=TRUST + 'Trusted: MPI matching semantics of lib/simmpi. Bounds as listed in the evidence; setup functions exercised through their '
+                     'constituent calls rather than end to end.'),
     'C07': dict(
         category='proof',
         technique='concolic symbolic execution of the real spline kernels on exact z3 Real proxies; per-path polynomial identities decided by z3 (nlsat)',
